@@ -270,6 +270,70 @@ func ruleLoaderSharesState(c *Ctx) {
 			continue
 		}
 		recv := c.recvObj(fd)
+		// the loader for another document built in place, as a literal of the loader type
+		ast.Inspect(fd.Body, func(nd ast.Node) bool {
+			lit, ok := nd.(*ast.CompositeLit)
+			if !ok || !isNamed(c.typeOf(lit), c.Types, fam.loader.Obj().Name()) {
+				return true
+			}
+			n++
+			c.saw(c.funcName(fd))
+			st := fam.loader.Underlying().(*types.Struct)
+			fieldVal := func(typeName string) ast.Expr {
+				for _, el := range lit.Elts {
+					kv, isKV := el.(*ast.KeyValueExpr)
+					if !isKV {
+						continue
+					}
+					kid, isId := kv.Key.(*ast.Ident)
+					if !isId {
+						continue
+					}
+					for j := 0; j < st.NumFields(); j++ {
+						if st.Field(j).Name() == kid.Name && isNamed(st.Field(j).Type(), c.Types, typeName) {
+							return kv.Value
+						}
+					}
+				}
+				return nil
+			}
+			fromRecv := func(e ast.Expr, typeName string) bool {
+				if e == nil {
+					return false
+				}
+				p, ok := c.apath(e)
+				if !ok || p.Root != recv || len(p.Steps) != 1 {
+					return false
+				}
+				for j := 0; j < st.NumFields(); j++ {
+					if st.Field(j).Name() == p.Steps[0] && isNamed(st.Field(j).Type(), c.Types, typeName) {
+						return true
+					}
+				}
+				return false
+			}
+			c.ob(rule, c.funcName(fd)+":shares-cache", lit.Pos(), fromRecv(fieldVal("ResolutionCache"), "ResolutionCache"),
+				"the loader created for another document does not receive the current loader's cache: documents are fetched again per sub-resolver and a supplied or pre-loaded cache is bypassed")
+			c.ob(rule, c.funcName(fd)+":shares-context", lit.Pos(), fromRecv(fieldVal("resolverContext"), "resolverContext"),
+				"the loader created for another document does not receive the current resolver context: cycles spanning documents are no longer seen and the root frame is lost")
+			var rootVal ast.Expr
+			for _, el := range lit.Elts {
+				if kv, isKV := el.(*ast.KeyValueExpr); isKV {
+					if kid, isId := kv.Key.(*ast.Ident); isId {
+						for j := 0; j < st.NumFields(); j++ {
+							if st.Field(j).Name() == kid.Name {
+								if it, isI := st.Field(j).Type().Underlying().(*types.Interface); isI && it.Empty() {
+									rootVal = kv.Value
+								}
+							}
+						}
+					}
+				}
+			}
+			c.ob(rule, c.funcName(fd)+":root-from-cache", lit.Pos(), c.isCacheEntryOfRecv(fd, rootVal, recv),
+				"the loader created for another document is not given that document (the cache entry just loaded) as its root: fragment-only $refs found in it have no document to be read against")
+			return true
+		})
 		ast.Inspect(fd.Body, func(nd ast.Node) bool {
 			call, ok := nd.(*ast.CallExpr)
 			if !ok {
@@ -299,6 +363,8 @@ func ruleLoaderSharesState(c *Ctx) {
 				"the loader created for another document does not receive the current loader's cache: documents are fetched again per sub-resolver and a supplied or pre-loaded cache is bypassed")
 			c.ob(rule, c.funcName(fd)+":shares-context", call.Pos(), isRecvField(call.Args[3], ctxField),
 				"the loader created for another document does not receive the current resolver context: cycles spanning documents are no longer seen and the root frame is lost")
+			c.ob(rule, c.funcName(fd)+":root-from-cache", call.Pos(), c.isCacheEntryOfRecv(fd, call.Args[0], recv),
+				"the loader created for another document is not given that document (the cache entry just loaded) as its root: fragment-only $refs found in it have no document to be read against")
 			return true
 		})
 	}
@@ -325,9 +391,10 @@ func ruleCodecMustPass(c *Ctx) {
 			if isM && pkg == "encoding/gob" && (r == "Encoder" && mname == "Encode" || r == "Decoder" && mname == "Decode") {
 				return true
 			}
-			// a package helper that runs the gob codec on one of its parameters
+			// a package helper that runs the gob codec on one of its parameters, or on a value of its own on every
+			// path (ungobBytes(b) ([]byte, error))
 			if g, ok := c.callee(call).(*types.Func); ok && g.Pkg() == c.Types {
-				return c.gobHelperParam(g, name) >= 0
+				return c.gobHelperParam(g, name) >= 0 || c.helperAlwaysRunsGob(g)
 			}
 			return false
 		}
@@ -388,3 +455,66 @@ func ruleMarshalReceiver(c *Ctx) {
 }
 
 var _ = strings.HasPrefix
+
+// isCacheEntryOfRecv: e is a local every definition of which is the first result of <recv>.<cache field>.Get(..).
+func (c *Ctx) isCacheEntryOfRecv(fd *ast.FuncDecl, e ast.Expr, recv types.Object) bool {
+	if e == nil {
+		return false
+	}
+	id, ok := unparen(e).(*ast.Ident)
+	if !ok {
+		return false
+	}
+	ds := c.localDefs(fd)[c.objOf(id)]
+	if len(ds) == 0 {
+		return false
+	}
+	for _, d := range ds {
+		call, isCall := unparen(d).(*ast.CallExpr)
+		if !isCall || !c.isCacheCall(call, "Get") {
+			return false
+		}
+		se, isSel := unparen(call.Fun).(*ast.SelectorExpr)
+		if !isSel {
+			return false
+		}
+		if p, okp := c.apath(se.X); !okp || p.Root != recv {
+			return false
+		}
+	}
+	return true
+}
+
+// helperAlwaysRunsGob: every return statement of the package function g is reached only after a call of gob's
+// Encoder.Encode / Decoder.Decode (go/cfg must-analysis; the return statement itself may hold the call).
+func (c *Ctx) helperAlwaysRunsGob(g *types.Func) bool {
+	fd := c.decl(g)
+	if fd == nil || fd.Body == nil {
+		return false
+	}
+	isCodec := func(call *ast.CallExpr) bool {
+		r, mname, pkg, isM := c.calleeMethod(call)
+		return isM && pkg == "encoding/gob" && (r == "Encoder" && mname == "Encode" || r == "Decoder" && mname == "Decode")
+	}
+	const passed factBits = 1
+	n, all := 0, true
+	flowForward(c.cfgOf(fd), 0, func(nd ast.Node, in factBits) factBits {
+		if containsCall(nd, isCodec) {
+			in |= passed
+		}
+		return in
+	}, func(nd ast.Node, in factBits) {
+		rs, ok := nd.(*ast.ReturnStmt)
+		if !ok {
+			return
+		}
+		if containsCall(rs, isCodec) {
+			in |= passed
+		}
+		n++
+		if in&passed == 0 {
+			all = false
+		}
+	})
+	return n > 0 && all
+}
